@@ -301,9 +301,15 @@ func runSMTCase(o *emitter, u *Universe, c smtCfg, ci int) {
 				if lim := len(u.Keys) * 3 / 4; size > lim {
 					size = lim
 				}
+				if r.Intn(12) == 0 || (step == 0 && ci%4 == 0) {
+					size = 0 // EMPTY batch (an empty block): the tree and its root stay what they are
+				}
 				ops := genBatch(o, u, presentIdx(u, t.m), size, parallel, hot)
-				if len(ops) == 0 {
+				if len(ops) == 0 && size != 0 {
 					continue
+				}
+				if size == 0 {
+					o.Count("smt:empty-batch")
 				}
 				mode := "seq"
 				if parallel {
